@@ -1,11 +1,11 @@
-\* thorough design check 2: two keys per contract, both initial tries (empty / populated), contract accounts only
+\* thorough design check 2: two keys per contract (interleaved index stacks), contract accounts only
 SPECIFICATION Spec
 CONSTANTS
   Accts = {}
   Ctrs = {"c1", "c2"}
   Keys = {"k1", "k2"}
   Vals = {"v1", "v2"}
-  InitTries <- Tries01
+  InitTries <- Tries1
   MaxABuf = 1
   MaxSBuf = 2
   MaxEnt = 2
